@@ -284,7 +284,12 @@ func sexpManaged(m fieldpath.ManagedFields) string {
 func copyManaged(m fieldpath.ManagedFields) fieldpath.ManagedFields {
 	out := fieldpath.ManagedFields{}
 	for k, v := range m {
-		out[k] = fieldpath.NewVersionedSet(fieldpath.NewSet().Union(v.Set()), v.APIVersion(), v.Applied())
+		// rebuilt by insertion, the way a caller obtains a set (field-set walker, decoder):
+		// slices grown by append keep spare capacity, which set operations sized exactly
+		// would hide from code that wrongly appends in place
+		c := fieldpath.NewSet()
+		v.Set().Iterate(func(p fieldpath.Path) { c.Insert(p.Copy()) })
+		out[k] = fieldpath.NewVersionedSet(c, v.APIVersion(), v.Applied())
 	}
 	return out
 }
